@@ -148,6 +148,20 @@ var variants = []variant{
 	}},
 	{"base-plasma", func(r *simrt.Run, b *nom.AccountBlock) bool { b.BasePlasma += 7; return true }},
 	{"total-plasma", func(r *simrt.Run, b *nom.AccountBlock) bool { b.TotalPlasma += 7; return true }},
+	{"base-plasma-lower", func(r *simrt.Run, b *nom.AccountBlock) bool {
+		if b.BasePlasma < 2 {
+			return false
+		}
+		b.BasePlasma = 1 + uint64(r.T.Choose(int(b.BasePlasma-1)))
+		return true
+	}},
+	{"total-plasma-lower", func(r *simrt.Run, b *nom.AccountBlock) bool {
+		if b.TotalPlasma < 2 {
+			return false
+		}
+		b.TotalPlasma = 1 + uint64(r.T.Choose(int(b.TotalPlasma-1)))
+		return true
+	}},
 	{"descendant-amount", func(r *simrt.Run, b *nom.AccountBlock) bool {
 		if len(b.DescendantBlocks) == 0 {
 			return false
